@@ -32,13 +32,14 @@ import (
 var suite = suites.MustFind("Ed25519")
 
 type input struct {
-	Kind    string   `json:"kind"` // script | race | server
-	TCP     bool     `json:"tcp"`
-	Script  []mac    `json:"script,omitempty"`
-	Race    *race    `json:"race,omitempty"`
-	Srv     *srv     `json:"server,omitempty"`
-	Blocked *blocked `json:"blocked,omitempty"`
-	Backlog *backlog `json:"backlog,omitempty"`
+	Kind      string     `json:"kind"` // script | race | server
+	TCP       bool       `json:"tcp"`
+	Script    []mac      `json:"script,omitempty"`
+	Race      *race      `json:"race,omitempty"`
+	Srv       *srv       `json:"server,omitempty"`
+	Blocked   *blocked   `json:"blocked,omitempty"`
+	Backlog   *backlog   `json:"backlog,omitempty"`
+	Unstarted *unstarted `json:"unstarted,omitempty"`
 }
 
 // scriptClass derives the class from the script alone (never from the outcome): it
@@ -142,6 +143,8 @@ func run(raw json.RawMessage) lib.Case {
 		return runBlocked(in)
 	case "backlog":
 		return runBacklog(in)
+	case "unstarted":
+		return runUnstarted(in)
 	}
 	panic("unknown kind " + in.Kind)
 }
@@ -201,6 +204,14 @@ func corpus() []interface{} {
 	out = append(out, input{Kind: "backlog", Backlog: &backlog{Msgs: 260, Stops: 1}})
 	out = append(out, input{Kind: "backlog", Backlog: &backlog{Msgs: 330, Stops: 2}})
 	out = append(out, input{Kind: "backlog", Backlog: &backlog{Msgs: 40, Stops: 1}})
+	// Stop repeatedly on a router never started / whose Start is overtaken by the first Stop (TCP, TLS)
+	for _, tls := range []bool{false, true} {
+		out = append(out, input{Kind: "unstarted", TCP: true, Unstarted: &unstarted{Stops: 2, TLS: tls}})
+		out = append(out, input{Kind: "unstarted", TCP: true, Unstarted: &unstarted{Stops: 3, TLS: tls}})
+		out = append(out, input{Kind: "unstarted", TCP: true, Unstarted: &unstarted{Stops: 3, Race: true, TLS: tls}})
+	}
+	// a started router stopped three times
+	out = append(out, sc(true, m1("send", 0), m0("stop"), m0("stop"), m0("stop")))
 	return out
 }
 
@@ -241,6 +252,9 @@ func generate(rng *rand.Rand, tier string) []interface{} {
 	}
 	for i := 0; i < nbacklog; i++ {
 		out = append(out, genBacklog(rng))
+	}
+	for i := 0; i < nbacklog; i++ {
+		out = append(out, genUnstarted(rng))
 	}
 	return out
 }
